@@ -511,6 +511,14 @@ func sites() []site {
 		}
 		return p[0].LabelFilter.Head.SimpleHead.Label.Name
 	}, false))
+	s = append(s, logqlIdentSite("logql.ident.lblf.map", `{a="b"} | json x="y" | %s = "c"`, func(x *logql_parser.LogQLScript) string {
+		p := x.StrSelector.Pipelines
+		if len(p) != 2 || p[1].LabelFilter == nil || p[1].LabelFilter.Tail != nil || p[1].LabelFilter.Head.SimpleHead == nil ||
+			p[1].LabelFilter.Head.SimpleHead.StrVal == nil || p[1].LabelFilter.Head.SimpleHead.StrVal.Str != `"c"` {
+			return "\x00"
+		}
+		return p[1].LabelFilter.Head.SimpleHead.Label.Name
+	}, false))
 	s = append(s, logqlIdentSite("logql.ident.by", `sum by (%s) (rate({a="b"}[1m]))`, func(x *logql_parser.LogQLScript) string {
 		l := x.AggOperator.ByOrWithoutPrefix.Labels
 		if len(l) != 1 {
@@ -806,6 +814,9 @@ func genIdent(r *rand.Rand, traceql bool) (string, string) {
 	s := string(b)
 	if r.Intn(3) == 0 {
 		a := atoms[r.Intn(len(atoms))]
+		if r.Intn(2) == 0 {
+			a = []string{"'", "\\", "''", "\\'", "`", "\"", "--", "-", "."}[r.Intn(9)]
+		}
 		k := r.Intn(len(s) + 1)
 		return s[:k] + a + s[k:], "ident+atom"
 	}
